@@ -37,6 +37,7 @@ type c08extcall struct {
 	Callee string `json:"callee"`
 	Loc    string `json:"loc"`
 	Text   string `json:"text"`
+	XSite  uint32 `json:"xsite"`
 }
 
 type c08case struct {
@@ -50,17 +51,7 @@ var (
 	c08ext   []c08extcall
 	// sync and sync/atomic operations do not look at the data they guard: their control flow depends on the state of the
 	// runtime (contention, pool occupancy), never on a secret value; what the guarded code does is traced like all code
-	c08allowed = []string{"math/bits.", "crypto/subtle.", "errors.New", "fmt.Errorf", "math.Pow", "(encoding/binary.", "io.ReadFull", "(*math/big.Int).Sign", "(*sync.", "sync.", "sync/atomic."}
-	// call sites that carry public values although they sit on the signing path: r and s are the published signature,
-	// and the affine x1 of [k]G equals (r - e) mod n
-	c08publicFuncs = map[string]bool{"sm2:ensure32Bytes": true, "sm2/internal/fiat:SM2Element.ToBigInt": true}
-	// declared-public call sites, identified by function and exact call text: r = (e + x1) mod n is computed from the
-	// digest e (public input) and x1 (= r - e, published with the signature); any other operand text is judged
-	c08publicCalls = map[string]bool{
-		"sm2:SignHashed|eInt.SetBytes(e)":   true,
-		"sm2:SignHashed|rInt.Add(x, &eInt)": true,
-		"sm2:SignHashed|rInt.Mod(&rInt, n)": true,
-	}
+	c08allowed = []string{"math/bits.", "crypto/subtle.", "errors.New", "fmt.Errorf", "math.Pow", "(encoding/binary.", "io.ReadFull", "(*math/big.Int).Sign", "(*sync.", "sync.", "sync/atomic.", "(io.Reader).Read"}
 )
 
 func c08load() bool {
@@ -96,6 +87,7 @@ type c08group struct {
 	name    string
 	secrets []string // hex
 	run     func(secret []byte)
+	pub     func(secret []byte) []*big.Int // public inputs and outputs of this run (values an observer has anyway)
 }
 
 func c08record(run func([]byte), secret []byte, detail bool) (trace.Result, string) {
@@ -176,6 +168,41 @@ func c08diverge(run func([]byte), a, b []byte) string {
 	return da + " | " + db
 }
 
+// c08operandsPublic: a call that leaves the module from an executed block is harmless when every value-bearing operand
+// (receiver and arguments: big integers, byte strings, integers - recorded by the instrumenter right before the
+// statement) is a *public* value of this run: a constant of the curve, a public input, a published output, or the
+// sum / difference of two of them that the standard's own formulas form (x1 = r - e, e + x1). Operands the
+// instrumenter could not read ("?") and calls it could not hook count as not public.
+func c08operandsPublic(g c08group, res trace.Result, x c08extcall) bool {
+	if x.XSite == 0 {
+		return false
+	}
+	execs, ok := res.Ext[x.XSite]
+	if !ok {
+		return false
+	}
+	pubs := map[string]bool{"": true}
+	var base []*big.Int
+	for _, v := range []int64{0, 1, 2, 3} {
+		base = append(base, big.NewInt(v))
+	}
+	base = append(base, bigN, sm2ref.P, new(big.Int).Sub(bigN, bigOne), new(big.Int).Sub(bigN, big.NewInt(2)), sm2ref.Gx, sm2ref.Gy, sm2ref.A, sm2ref.B)
+	if g.pub != nil {
+		base = append(base, g.pub(vx.UnHex(g.secrets[0]))...)
+	}
+	for _, v := range base {
+		pubs[trace.Canon(v)] = true
+	}
+	for _, ops := range execs {
+		for _, o := range ops {
+			if !pubs[o] {
+				return false
+			}
+		}
+	}
+	return true
+}
+
 func c08groups() []c08group {
 	th := vx.Thorough()
 	var gs []c08group
@@ -237,6 +264,10 @@ func c08groups() []c08group {
 		}
 	}
 	add("DerivePublic(valid keys)", validKeys, func(k []byte) { sm2.DerivePublic(k) })
+	gs[len(gs)-1].pub = func(k []byte) []*big.Int {
+		px, py := sm2ref.Pub(bi(k))
+		return []*big.Int{bi(px), bi(py), bi(append(append([]byte{4}, px...), py...))}
+	}
 	// ---- variable point multiplication: per (point, length)
 	pts := map[string]sm2ref.Point{"G": sm2ref.G(), "2G": sm2ref.Add(sm2ref.G(), sm2ref.G()), "S": sm2ref.BaseMul(modN(bi(vx.Fill("c08pt", 32))))}
 	for _, pn := range []string{"G", "2G", "S"} {
@@ -452,7 +483,30 @@ func c08groups() []c08group {
 	}
 	eFixed := vx.Fill("c08e", 32)
 	add("SignHashed(d,k)", dk, func(s []byte) { sm2.SignHashed(stream(s[32:], s[32:]), s[:32], eFixed) })
+	gs[len(gs)-1].pub = func(s []byte) []*big.Int {
+		// published: e, r, s; derivable from them: x1 = (r - e) mod n (also + n where that is still below p), e + x1
+		e := bi(eFixed)
+		out := []*big.Int{e}
+		sg, err := sm2ref.Sign(stream(s[32:], s[32:]), bi(s[:32]), eFixed)
+		if err != nil {
+			return out
+		}
+		r, sv := bi(sg.R), bi(sg.S)
+		out = append(out, r, sv)
+		x1 := modN(new(big.Int).Sub(r, e))
+		for _, x := range []*big.Int{x1, new(big.Int).Add(x1, bigN)} {
+			if x.Cmp(sm2ref.P) < 0 {
+				out = append(out, x, new(big.Int).Add(x, e))
+			}
+		}
+		return out
+	}
 	add("GenerateKey(d)", dk, func(s []byte) { sm2.GenerateKey(io.MultiReader(stream(s[:32]))) })
+	pubOfKey := func(d []byte) []*big.Int {
+		px, py := sm2ref.Pub(bi(d))
+		return []*big.Int{bi(px), bi(py), bi(append(append([]byte{4}, px...), py...))}
+	}
+	gs[len(gs)-1].pub = func(s []byte) []*big.Int { return pubOfKey(s[:32]) }
 	for _, L := range []int{32, 1, 7, 8, 20, 31, 33, 64} {
 		for _, verdict := range []int{-1, 0, 1} {
 			verdict, L := verdict, L
@@ -611,7 +665,7 @@ func TestVX_C08(t *testing.T) {
 					ok = true
 				}
 			}
-			if !ok && !c08publicFuncs[x.Func] && !c08publicCalls[x.Func+"|"+x.Text] {
+			if !ok && !c08operandsPublic(g, ref, x) {
 				r.Violation(fmt.Sprintf("ct:external-callee:%s:%s->%s", g.name, x.Func, x.Callee), fmt.Sprintf("%s: executed block at %s in %s calls %s on the secret path; its control flow is invisible to the monitor and it is not on the constant-time whitelist (math/bits, crypto/subtle, error constructors)", g.name, x.Loc, x.Func, x.Callee), c08case{Group: g.name, Secret: g.secrets[0], Other: g.secrets[0]})
 			}
 		}
